@@ -652,12 +652,8 @@ func dirSnapshot(dir, except string) map[string]string {
 		if err != nil {
 			continue
 		}
-		h := ""
-		if fi.Mode().IsRegular() {
-			x := fileHash(p)
-			h = hex.EncodeToString(x[:8])
-		}
-		out[e.Name()] = fmt.Sprintf("%v:%d:%s", fi.Mode(), fi.Size(), h)
+		// mode, size, modification time and inode: cheap, and any write, truncation or replacement shows
+		out[e.Name()] = fmt.Sprintf("%v:%d:%d:%d", fi.Mode(), fi.Size(), fi.ModTime().UnixNano(), statIno(fi))
 	}
 	return out
 }
